@@ -47,14 +47,22 @@ def _make_wrapper(name, fn):
     # named condition functions whose argument names match the shim's (icontract requirement)
     def input_unchanged(circuit, OLD):
         CONTRACT_EVALS[name] = CONTRACT_EVALS.get(name, 0) + 1
-        now = fp(circuit)
+        try:
+            now = fp(circuit)
+        except RecursionError:
+            return True
+        if OLD.inp is None:
+            return True
         if now != OLD.inp:
             CONTRACT_FAILS.append((name, "return", fp_diff(OLD.inp, now)))
             return not RAISE_ON_FAIL
         return True
 
     def capture(circuit):
-        return fp(circuit)
+        try:
+            return fp(circuit)
+        except RecursionError:
+            return None
 
     def shim(circuit, *rest, **kwargs):
         return fn(circuit, *rest, **kwargs)
@@ -72,14 +80,23 @@ def _make_wrapper(name, fn):
             k0 = next(iter(kwargs))
             args = (kwargs.pop(k0),)
         target = args[0] if args else None
-        before = fp(target)
+        try:
+            before = fp(target)
+        except RecursionError:
+            # the monitor's own walk is too deep for this object: observe nothing rather than
+            # raise an exception the library did not raise
+            CONTRACT_EVALS[name + ":skipped-too-deep"] = CONTRACT_EVALS.get(name + ":skipped-too-deep", 0) + 1
+            return fn(*args, **kwargs)
         try:
             return checked(*args, **kwargs)
         except InputMutated:
             raise
         except BaseException:
             CONTRACT_EVALS[name + ":raise"] = CONTRACT_EVALS.get(name + ":raise", 0) + 1
-            now = fp(target)
+            try:
+                now = fp(target)
+            except RecursionError:
+                now = before
             if now != before:
                 CONTRACT_FAILS.append((name, "raise", fp_diff(before, now)))
             raise
